@@ -36,12 +36,14 @@ const (
 	zzEvMaxTsNotSynced
 	zzEvDiskFull
 	zzEvUnknown
+	zzEvServerBusyDeadline // ServerIsBusy whose reason says the request's deadline is exceeded
 	zzNumEv
 )
 
 type zzSendRecord struct {
 	retry, replicaRead, staleRead bool
 	peerID                        uint64
+	sleptMs                       int   // back-off sleep the call's Backoffer had accounted when the request was sent
 }
 
 // zzClient is the harness transport: call i gets script[i], calls beyond the
@@ -49,6 +51,7 @@ type zzSendRecord struct {
 type zzClient struct {
 	client.Client
 	region   *metapb.Region
+	bo       *retry.Backoffer
 	script   []int
 	sent     []zzSendRecord
 	produced []*tikvrpc.Response
@@ -76,7 +79,11 @@ func (c *zzClient) respond(req *tikvrpc.Request, e *errorpb.Error) (*tikvrpc.Res
 
 func (c *zzClient) SendRequest(ctx context.Context, addr string, req *tikvrpc.Request, timeout time.Duration) (*tikvrpc.Response, error) {
 	i := len(c.sent)
-	c.sent = append(c.sent, zzSendRecord{retry: req.IsRetryRequest, replicaRead: req.ReplicaRead, staleRead: req.StaleRead, peerID: req.Context.GetPeer().GetId()})
+	rec := zzSendRecord{retry: req.IsRetryRequest, replicaRead: req.ReplicaRead, staleRead: req.StaleRead, peerID: req.Context.GetPeer().GetId()}
+	if c.bo != nil {
+		rec.sleptMs = c.bo.GetTotalSleep()
+	}
+	c.sent = append(c.sent, rec)
 	ev := zzEvOK
 	if i < len(c.script) {
 		ev = c.script[i]
@@ -112,6 +119,8 @@ func (c *zzClient) SendRequest(ctx context.Context, addr string, req *tikvrpc.Re
 		return c.respond(req, &errorpb.Error{RegionNotFound: &errorpb.RegionNotFound{RegionId: c.region.Id}})
 	case zzEvServerBusy:
 		return c.respond(req, &errorpb.Error{ServerIsBusy: &errorpb.ServerIsBusy{Reason: "busy"}})
+	case zzEvServerBusyDeadline:
+		return c.respond(req, &errorpb.Error{ServerIsBusy: &errorpb.ServerIsBusy{Reason: "deadline is exceeded"}})
 	case zzEvServerBusyWait:
 		return c.respond(req, &errorpb.Error{ServerIsBusy: &errorpb.ServerIsBusy{Reason: "busy", EstimatedWaitMs: 200}})
 	case zzEvStaleCommand:
@@ -172,7 +181,7 @@ func zzNewSendWorld(budgetMs, nrep int) *zzSendWorld {
 	w.c.stores.setMockRequestLiveness(func(ctx context.Context, s *Store) livenessState { return probe })
 	sw.w = w
 	sw.ver = r.VerID()
-	sw.cl = &zzClient{region: w.pd.regions[0]}
+	sw.cl = &zzClient{region: w.pd.regions[0], bo: w.bo}
 	sw.val = &zzValidator{}
 	sw.sender = NewRegionRequestSender(w.c, sw.cl, sw.val)
 	return sw
@@ -210,7 +219,7 @@ func zzIsProduced(c *zzClient, resp *tikvrpc.Response) bool {
 func zzSendAndCheck(sw *zzSendWorld, req *tikvrpc.Request, write bool, budget int) {
 	nBusy := 0
 	for _, ev := range sw.cl.script {
-		if ev == zzEvServerBusy || ev == zzEvServerBusyWait {
+		if ev == zzEvServerBusy || ev == zzEvServerBusyWait || ev == zzEvServerBusyDeadline {
 			nBusy++
 		}
 	}
@@ -226,6 +235,17 @@ func zzSendAndCheck(sw *zzSendWorld, req *tikvrpc.Request, write bool, budget in
 			zzAssert(!s.replicaRead && !s.staleRead, "C10.sent-write-not-replica-or-stale")
 		}
 		zzAssert(!(s.replicaRead && s.staleRead), "C10.sent-not-both-read-flags")
+	}
+	{
+		// a store that answered "busy" is not asked again at once: the re-send goes to another peer or
+		// comes after a back-off (a read with the configurable short time-out may retry at once: not used here)
+		for i := 1; i < len(sw.cl.sent) && i-1 < len(sw.cl.script); i++ {
+			ev := sw.cl.script[i-1]
+			if ev == zzEvServerBusy || ev == zzEvServerBusyDeadline {
+				p, q := sw.cl.sent[i-1], sw.cl.sent[i]
+				zzAssert(q.peerID != p.peerID || q.sleptMs > p.sleptMs, "C10.busy-store-not-asked-again-without-back-off")
+			}
+		}
 	}
 	zzAssert((err == nil) != (resp == nil), "C10.result-response-xor-error")
 	if resp != nil {
